@@ -77,6 +77,11 @@ Print Assumptions C20_forbid_means_existing.
 
 (* obligations on the generated shape facts of the two readers: unk.def needs >= 10 comma-separated columns, POS = columns
    4..10 = POS_DEPTH of them, '#' comments; the integer types of the three numeric columns are those of Guards.v *)
+(* every shape the model of the two readers relies on (loop, trim, skip rules, tokenisers, order of the checks, column -> field,
+   grouping, charDef before unkDef, CategoryType::from_str = bitflags parser) was recognised in the source as it is now *)
+Fact C20_reader_shapes_recognised : UF.unrecognised_shapes = [].
+Proof. vm_compute. reflexivity. Qed.
+
 Fact C20_unk_reader_shape : unk_shape_ok.
 Proof. unfold unk_shape_ok. repeat split; vm_compute; reflexivity. Qed.
 
